@@ -4,12 +4,15 @@ package main
 
 import (
 	"fmt"
+	"os"
 	"go/types"
 	"sort"
 	"strings"
 
 	"golang.org/x/tools/go/ssa"
 )
+
+var traceUnsat = os.Getenv("SYMGO_TRACE_UNSAT") != ""
 
 // control-flow panics of the engine
 type targetPanic struct{ v Value }       // Go-level panic in the interpreted program
@@ -67,6 +70,8 @@ type Path struct {
 	decs   []Decision
 	res    *PathResult
 	model  Model // satisfies the current path condition, or nil if unknown
+	known  map[int]bool
+	site   *frame
 	pc     []*Term
 
 	globals map[*ssa.Global]*Value
@@ -114,6 +119,7 @@ func (p *Path) recordSym(kind string, ts ...*Term) {
 
 // assume adds c to the path condition; ends the path if it becomes infeasible.
 func (p *Path) assume(c *Term) {
+	c = p.reduce(c)
 	if c.IsTrue() {
 		return
 	}
@@ -127,8 +133,9 @@ func (p *Path) assume(c *Term) {
 	}
 	p.pc = append(p.pc, c)
 	p.sol.Assert(c)
+	p.learn(c, true)
 	if p.model == nil {
-		r, m := p.sol.Check(nil, true)
+		r, m := p.sol.CheckT("assume", nil, true)
 		switch r {
 		case ResUnsat:
 			panic(pathEnd{"assume"})
@@ -144,7 +151,113 @@ func (p *Path) assume(c *Term) {
 func (p *Path) addPC(c *Term, m Model) {
 	p.pc = append(p.pc, c)
 	p.sol.Assert(c)
+	p.learn(c, true)
 	p.model = m
+}
+
+// ---- known literals: facts implied by the path condition, kept syntactically
+// so that branches on them (or on boolean combinations of them) need no query.
+
+// learn records that t has the given truth value (t must be implied by the
+// path condition), decomposing conjunctions / negated disjunctions.
+func (p *Path) learn(t *Term, val bool) {
+	if t.IsConst() {
+		return
+	}
+	if p.known == nil {
+		p.known = map[int]bool{}
+	}
+	switch {
+	case t.Op == ONot:
+		p.learn(t.A[0], !val)
+		return
+	case t.Op == OAnd && val:
+		p.learn(t.A[0], true)
+		p.learn(t.A[1], true)
+	case t.Op == OOr && !val:
+		p.learn(t.A[0], false)
+		p.learn(t.A[1], false)
+	}
+	p.known[t.ID] = val
+}
+
+// eval3 partially evaluates a boolean term under the known literals:
+// 1 true, 0 false, -1 unknown.
+func (p *Path) eval3(t *Term, depth int) int {
+	if t.IsConst() {
+		return int(t.K)
+	}
+	if v, ok := p.known[t.ID]; ok {
+		if v {
+			return 1
+		}
+		return 0
+	}
+	if depth > 24 {
+		return -1
+	}
+	switch t.Op {
+	case ONot:
+		if r := p.eval3(t.A[0], depth+1); r >= 0 {
+			return 1 - r
+		}
+	case OAnd:
+		a, b := p.eval3(t.A[0], depth+1), p.eval3(t.A[1], depth+1)
+		if a == 0 || b == 0 {
+			return 0
+		}
+		if a == 1 && b == 1 {
+			return 1
+		}
+	case OOr:
+		a, b := p.eval3(t.A[0], depth+1), p.eval3(t.A[1], depth+1)
+		if a == 1 || b == 1 {
+			return 1
+		}
+		if a == 0 && b == 0 {
+			return 0
+		}
+	case OIte:
+		if t.W != 0 {
+			return -1
+		}
+		switch p.eval3(t.A[0], depth+1) {
+		case 1:
+			return p.eval3(t.A[1], depth+1)
+		case 0:
+			return p.eval3(t.A[2], depth+1)
+		default:
+			a, b := p.eval3(t.A[1], depth+1), p.eval3(t.A[2], depth+1)
+			if a >= 0 && a == b {
+				return a
+			}
+		}
+	case OEq:
+		if t.A[0].W == 0 {
+			a, b := p.eval3(t.A[0], depth+1), p.eval3(t.A[1], depth+1)
+			if a >= 0 && b >= 0 {
+				if a == b {
+					return 1
+				}
+				return 0
+			}
+		}
+	}
+	return -1
+}
+
+// reduce replaces a boolean term by a constant when the known literals decide it.
+func (p *Path) reduce(t *Term) *Term {
+	if t.IsConst() || len(p.known) == 0 {
+		return t
+	}
+	switch p.eval3(t, 0) {
+	case 1:
+		return p.ctx.T
+	case 0:
+		return p.ctx.F
+	}
+	return t
 }
 
 func (p *Path) evalModel(c *Term) (uint64, bool) {
@@ -158,6 +271,13 @@ func (p *Path) evalModel(c *Term) (uint64, bool) {
 // feasible are queued as new prefixes.
 func (p *Path) choose(kind string, opts []*Term) int {
 	n := len(opts)
+	if len(p.known) > 0 {
+		ro := make([]*Term, n)
+		for i, o := range opts {
+			ro[i] = p.reduce(o)
+		}
+		opts = ro
+	}
 	// constant options
 	nonFalse := 0
 	last := -1
@@ -184,6 +304,7 @@ func (p *Path) choose(kind string, opts []*Term) int {
 		if !c.IsTrue() {
 			p.pc = append(p.pc, c)
 			p.sol.Assert(c)
+			p.learn(c, true)
 			if p.model != nil {
 				if v, ok := p.evalModel(c); !ok || v != 1 {
 					p.model = nil
@@ -192,7 +313,9 @@ func (p *Path) choose(kind string, opts []*Term) int {
 		}
 		return d.Pick
 	}
-	// explore: find feasible options
+	// explore: find the feasible options. Options are mutually exclusive;
+	// instead of one query per option, ask for a model of "some option not
+	// yet known feasible" until that is unsat (|feasible|+1 queries).
 	feas := make([]bool, n)
 	models := make([]Model, n)
 	cnt := 0
@@ -203,17 +326,76 @@ func (p *Path) choose(kind string, opts []*Term) int {
 		if v, ok := p.evalModel(o); ok && v == 1 {
 			feas[i], models[i] = true, p.model
 			cnt++
-			continue
 		}
-		r, m := p.sol.Check(o, true)
-		switch r {
-		case ResSat:
-			feas[i], models[i] = true, m
-			cnt++
-		case ResUnknown:
-			feas[i] = true
+	}
+	for {
+		rest := p.ctx.F
+		nrest, lastRest := 0, -1
+		for i, o := range opts {
+			if !feas[i] && !o.IsFalse() {
+				rest = p.ctx.Or(rest, o)
+				nrest++
+				lastRest = i
+			}
+		}
+		if nrest == 0 {
+			break
+		}
+		r, m := p.sol.CheckT("choose-"+kind, rest, true)
+		if r == ResUnsat {
+			if traceUnsat && p.site != nil {
+				bi := -1
+				if p.site.prevBlock != nil {
+					bi = p.site.prevBlock.Index
+				}
+				fmt.Fprintf(os.Stderr, "UNSAT %s in %s b%d: %s\n", kind, p.site.fn.String(), bi, rest.String())
+			}
+			break
+		}
+		if r == ResUnknown {
+			for i, o := range opts {
+				if !feas[i] && !o.IsFalse() {
+					feas[i] = true
+					cnt++
+				}
+			}
 			p.res.FeasUnknown++
+			break
+		}
+		found := false
+		if nrest == 1 {
+			feas[lastRest], models[lastRest] = true, m
 			cnt++
+			found = true
+		} else {
+			for i, o := range opts {
+				if feas[i] || o.IsFalse() {
+					continue
+				}
+				if v, ok := p.ctx.Eval(o, m, nil); ok && v == 1 {
+					feas[i], models[i] = true, m
+					cnt++
+					found = true
+					break
+				}
+			}
+		}
+		if !found {
+			// model incomplete for evaluation (uninterpreted functions): fall back to per-option queries
+			for i, o := range opts {
+				if feas[i] || o.IsFalse() {
+					continue
+				}
+				r2, m2 := p.sol.CheckT("choose-fallback", o, true)
+				if r2 != ResUnsat {
+					feas[i], models[i] = true, m2
+					cnt++
+					if r2 == ResUnknown {
+						p.res.FeasUnknown++
+					}
+				}
+			}
+			break
 		}
 	}
 	if cnt == 0 {
@@ -243,6 +425,7 @@ func (p *Path) choose(kind string, opts []*Term) int {
 
 // branch decides a boolean condition.
 func (p *Path) branch(c *Term) bool {
+	c = p.reduce(c)
 	if c.IsConst() {
 		return c.K == 1
 	}
@@ -261,6 +444,38 @@ func (p *Path) concretize(t *Term, lo, hi int64) int64 {
 	return lo + int64(p.choose("val", opts))
 }
 
+// enumerate makes an integer concrete by forking over its feasible values
+// (one path per value; at most maxFan values, beyond that: unsupported).
+func (p *Path) enumerate(v Value, what string) int64 {
+	t, ok := v.(*Term)
+	if !ok {
+		panic(engineError{fmt.Sprintf("%s: not an integer: %T", what, v)})
+	}
+	for i := 0; ; i++ {
+		if t.IsConst() {
+			return sext64(t.K, t.W)
+		}
+		if i >= p.eng.maxFan {
+			panic(unsupported{what + ": more than " + fmt.Sprint(p.eng.maxFan) + " feasible values for a symbolic size"})
+		}
+		if p.model == nil {
+			r, m := p.sol.Check(nil, true)
+			if r != ResSat {
+				panic(unsupported{what + ": no model available to enumerate a symbolic size"})
+			}
+			p.model = m
+		}
+		mv, ok := p.evalModel(t)
+		if !ok {
+			panic(unsupported{what + ": cannot evaluate symbolic size"})
+		}
+		k := p.ctx.BV(mv, t.W)
+		if p.choose("enum", []*Term{p.ctx.Eq(t, k), p.ctx.Ne(t, k)}) == 0 {
+			return sext64(mv, t.W)
+		}
+	}
+}
+
 // concreteInt returns the value of an integer term that must be concrete.
 func (p *Path) concreteInt(v Value, what string) int64 {
 	t, ok := v.(*Term)
@@ -274,7 +489,7 @@ func (p *Path) concreteInt(v Value, what string) int64 {
 	if p.model != nil {
 		if mv, ok := p.evalModel(t); ok {
 			eq := p.ctx.Eq(t, p.ctx.BV(mv, t.W))
-			r, _ := p.sol.Check(p.ctx.Not(eq), false)
+			r, _ := p.sol.CheckT("concreteInt", p.ctx.Not(eq), false)
 			if r == ResUnsat {
 				return sext64(mv, t.W)
 			}
@@ -286,6 +501,7 @@ func (p *Path) concreteInt(v Value, what string) int64 {
 // check is verif.Assert.
 func (p *Path) check(c *Term, label string, pos string) {
 	p.res.Asserts++
+	c = p.reduce(c)
 	if c.IsTrue() {
 		p.res.Trivial++
 		return
@@ -298,7 +514,7 @@ func (p *Path) check(c *Term, label string, pos string) {
 			r, m = p.sol.Check(nil, true)
 		}
 	} else {
-		r, m = p.sol.Check(p.ctx.Not(c), true)
+		r, m = p.sol.CheckT("assert", p.ctx.Not(c), true)
 	}
 	switch r {
 	case ResUnsat:
